@@ -20,6 +20,42 @@ CHECKS = {
     ),
 }
 
+def _std(cat, tech, text, note, ref):
+    return (cat, tech, text, note, ref)
+
+
+E1_NOTE = ("time advances only inside the scripted operation and the sleeper (virtual monotonic clock installed before "
+           "`import redress`); timings on the exact k/64 s grid; attempt_timeout_s is not exercised")
+CHECKS.update({
+    "C01": _std("exploration", "Hypothesis-generated cases + exhaustive small-scope enumeration; counting invariants and fresh-object differential on the trace",
+        "Generated (config x outcome script x call sequence x 12 entry points) plus complete enumeration of all outcome scripts over a 9-letter alphabet up to length 3 (quick) / 4 (thorough) with every small cap combination; counting invariants need no model, the reused-object check is a differential against a fresh object.",
+        E1_NOTE, "DESIGN.md §3 C01"),
+    "C02": _std("exploration", "Hypothesis-generated timings on an exact dyadic grid + off-grid float stream; timing inequalities and wall-clock-jump metamorphic relation",
+        "Generated deadlines, attempt durations, sleeper overshoots (placed at deadline +/- 2 ticks on purpose), strategy outputs and wall-clock jump patterns; oracle is a set of inequalities on the virtual monotonic clock compared exactly, plus trace equality with/without jumps.",
+        E1_NOTE + "; off-grid stream uses a 2 us tolerance", "DESIGN.md §3 C02"),
+    "C03": _std("exploration", "Hypothesis-generated cases checked against a spec-level reference model (set of stop conditions that hold at each failure)",
+        "Model-based: an independent model computes at every failed attempt which stop conditions hold and whether the budget refuses; the trace must retry exactly when none holds, spend exactly one token, and report a reason that holds.",
+        E1_NOTE, "DESIGN.md §3 C03"),
+    "C04": _std("exploration", "Hypothesis-generated mixed exception/result histories; object-identity and traceback oracle over all call-mode entry points",
+        "Generated histories through 12 call-mode entry points (incl. context managers and @retry); oracle compares object identity of what call() delivers with the object the last attempt produced, and RetryExhaustedError fields with the trace.",
+        E1_NOTE, "DESIGN.md §3 C04"),
+    "C05": _std("exploration", "Hypothesis-generated strategy tables and hostile return values; data-flow equalities across strategy context, sleeper, hooks, events",
+        "Generated strategy tables/signatures/return values (NaN, inf, negative, huge, above remaining); oracle recomputes the applied delay from the property statement and follows it through every observer.",
+        E1_NOTE, "DESIGN.md §3 C05"),
+    "C11": _std("exploration", "Hypothesis-generated cases through every execute entry point; RetryOutcome-vs-trace oracle",
+        "Generated configs/scripts/abort points/handler decisions through 12 execute entry points (incl. breaker and no-retry policies); every RetryOutcome field is checked against the trace; only documented exception kinds may escape.",
+        E1_NOTE + "; ABORTED outcomes are allowed to describe the last failure the loop recorded (abort_if is polled before a failure is recorded)", "DESIGN.md §3 C11"),
+    "C13": _std("fault_enumeration", "Generated + exhaustively enumerated first-True poll index and cancellation points; poll-placement grammar oracle",
+        "abort_if turning True at every poll index of fixed runs (enumerated) and of generated runs; AbortRetryError / KeyboardInterrupt / SystemExit / CancelledError raised by the operation at attempt k; oracle: poll before every attempt and sleep, nothing after True, same exception object out, never classified.",
+        E1_NOTE + "; cancellation at await points and inside sleeps is covered by the C08 stepper", "DESIGN.md §3 C13"),
+    "C14": _std("exploration", "Hypothesis-generated runs; event-grammar oracle (retry* terminal) with three-sink parity",
+        "Generated runs with metric/log/both sinks and timeline capture; oracle is the grammar retry(attempt=i)* terminal, tag/stop-reason agreement with what is delivered, and metric/log/timeline parity.",
+        E1_NOTE, "DESIGN.md §3 C14"),
+    "C16": _std("exploration", "Hypothesis-generated handler decision sequences x callback placements + exhaustive placement product; protocol-grammar oracle",
+        "Generated decision sequences and callback placements through 20 entry points plus the complete product of placements x decision sequences x callback flavours; oracle is the per-retry protocol (consult once, before_sleep, sleep once, next attempt / SCHEDULED / ABORTED) and call-over-policy precedence.",
+        E1_NOTE, "DESIGN.md §3 C16"),
+})
+
 PENDING_REASON = "check not built yet in this snapshot (work in progress; see DESIGN.md §3 for the planned generated-input check)"
 
 
